@@ -152,61 +152,79 @@ Definition set_aes (f : zfd) (a : AesMode * N) (m : CompressionMethod) : zfd :=
    [Err (EIo ..)] results are swallowed by both callers, other errors abort the entry. *)
 Definition ex_u (ex : bytes) (pos k : N) : res N := let* b := rd_at ex pos k in Ok (unle b).
 
+(* ZIP64 extended information: each field is read only when its 32-bit value is the sentinel, in the
+   fixed order usize, csize, header offset; a failed read keeps the mutations made so far *)
+Definition z64_step (ex : bytes) (acc : zfd * N * option err) (which : N) : zfd * N * option err :=
+  let '(g, p, e) := acc in
+  match e with Some _ => acc | None =>
+    let cur := if which =? 0 then f_usize g else if which =? 1 then f_csize g else f_header_start g in
+    if cur =? ZIP64_BYTES_THR then
+      let g1 := if which =? 2 then g else set_sizes g (f_usize g) (f_csize g) (f_header_start g) true in
+      match ex_u ex p 8 with
+      | Ok v =>
+          let g2 := if which =? 0 then set_sizes g1 v (f_csize g1) (f_header_start g1) (f_large g1)
+                    else if which =? 1 then set_sizes g1 (f_usize g1) v (f_header_start g1) (f_large g1)
+                    else set_sizes g1 (f_usize g1) (f_csize g1) v (f_large g1) in
+          (g2, p + 8, None)
+      | Err er => (g1, p, Some er)
+      | Panic _ => acc
+      end
+    else acc
+  end.
+Definition z64_fields (ex : bytes) (f : zfd) (p0 : N) : zfd * N * option err :=
+  z64_step ex (z64_step ex (z64_step ex (f, p0, None) 0) 1) 2.
+
+Inductive aes_parse := AesOk (a : AesMode * N) (m : CompressionMethod) | AesErr (e : err).
+Definition aes_field (ex : bytes) (p0 : N) : aes_parse :=
+  match ex_u ex p0 2, ex_u ex (p0 + 2) 2, ex_u ex (p0 + 4) 1, ex_u ex (p0 + 5) 2 with
+  | Ok vv, Ok vid, Ok mode, Ok cm =>
+      if negb (vid =? 17729) then AesErr (EInvalid MAesVendor) else     (* 0x4541 *)
+      if negb ((vv =? 1) || (vv =? 2)) then AesErr (EInvalid MAesVendorVersion) else
+      if negb ((1 <=? mode) && (mode <=? 3)) then AesErr (EInvalid MAesStrength) else
+      let am := if mode =? 1 then AesMode_Aes128 else if mode =? 2 then AesMode_Aes192 else AesMode_Aes256 in
+      AesOk (am, vv) (CompressionMethod_from_u16 cm)
+  | Err er, _, _, _ => AesErr er
+  | _, Err er, _, _ => AesErr er
+  | _, _, Err er, _ => AesErr er
+  | _, _, _, Err er => AesErr er
+  | _, _, _, _ => AesErr eof_err       (* unreachable: ex_u never panics *)
+  end.
+
 Fixpoint parse_extra (fuel : nat) (f : zfd) (pos : N) : zfd * res unit :=
   let ex := f_extra f in
   if len ex <=? pos then (f, Ok tt) else
   match fuel with
   | O => (f, Panic POutOfFuel)
   | S fuel' =>
-      match ex_u ex pos 2, ex_u ex (pos + 2) 2 with
-      | Ok kind, Ok flen =>
+      match ex_u ex pos 2 with
+      | Err er => (f, Err er)
+      | Panic p => (f, Panic p)
+      | Ok kind =>
+      match ex_u ex (pos + 2) 2 with
+      | Err er => (f, Err er)
+      | Panic p => (f, Panic p)
+      | Ok flen =>
           let p0 := pos + 4 in
           if kind =? 1 then
-            (* ZIP64: each field is read only when its 32-bit value is the sentinel, in fixed order *)
-            let step (acc : zfd * N * option err) (which : N) :=
-              let '(g, p, e) := acc in
-              match e with Some _ => acc | None =>
-                let cur := if which =? 0 then f_usize g else if which =? 1 then f_csize g else f_header_start g in
-                if cur =? ZIP64_BYTES_THR then
-                  let g1 := if which =? 2 then g else set_sizes g (f_usize g) (f_csize g) (f_header_start g) true in
-                  match ex_u ex p 8 with
-                  | Ok v =>
-                      let g2 := if which =? 0 then set_sizes g1 v (f_csize g1) (f_header_start g1) (f_large g1)
-                                else if which =? 1 then set_sizes g1 (f_usize g1) v (f_header_start g1) (f_large g1)
-                                else set_sizes g1 (f_usize g1) (f_csize g1) v (f_large g1) in
-                      (g2, p + 8, None)
-                  | Err er => (g1, p, Some er)
-                  | Panic _ => acc
-                  end
-                else acc
-              end in
-            (* len_left = flen - consumed is a signed quantity in the source: skip only when positive *)
-            let '(g, p, e) := fold_left step [0; 1; 2] (f, p0, None) in
+            let '(g, p, e) := z64_fields ex f p0 in
             match e with
             | Some er => (g, Err er)
             | None =>
+                (* len_left = flen - consumed is a signed quantity in the source: skip only when positive *)
                 let consumed := p - p0 in
                 let next := if consumed <? flen then p + (flen - consumed) else p in
                 parse_extra fuel' g next
             end
           else if kind =? 39169 then     (* 0x9901 AES *)
             if negb (flen =? 7) then (f, Err (EUnsupported MAesExtraLen)) else
-            match ex_u ex p0 2, ex_u ex (p0 + 2) 2, ex_u ex (p0 + 4) 1, ex_u ex (p0 + 5) 2 with
-            | Ok vv, Ok vid, Ok mode, Ok cm =>
-                if negb (vid =? 17729) then (f, Err (EInvalid MAesVendor)) else     (* 0x4541 *)
-                if negb ((vv =? 1) || (vv =? 2)) then (f, Err (EInvalid MAesVendorVersion)) else
-                if negb ((1 <=? mode) && (mode <=? 3)) then (f, Err (EInvalid MAesStrength)) else
-                let am := if mode =? 1 then AesMode_Aes128 else if mode =? 2 then AesMode_Aes192 else AesMode_Aes256 in
-                let g := set_aes f (am, vv) (CompressionMethod_from_u16 cm) in
+            match aes_field ex p0 with
+            | AesErr er => (f, Err er)
+            | AesOk a m =>
                 (* len_left is still 7 here: the cursor is moved 7 further bytes (faithful to the source) *)
-                parse_extra fuel' g (p0 + 7 + 7)
-            | Err er, _, _, _ | _, Err er, _, _ | _, _, Err er, _ | _, _, _, Err er => (f, Err er)
-            | _, _, _, _ => (f, Panic PUnreachable)
+                parse_extra fuel' (set_aes f a m) (p0 + 7 + 7)
             end
           else parse_extra fuel' f (p0 + flen)
-      | Err er, _ | _, Err er => (f, Err er)
-      | _, _ => (f, Panic PUnreachable)
-      end
+      end end
   end.
 
 Definition parse_extra_field (f : zfd) : zfd * res unit :=
